@@ -218,3 +218,99 @@ theorem ks_doOp (env : Env) (b : Book) (o : Op) (hk : keepsSheets o = true) :
     · exact ks_ofLoop (ks_rowsHiddenLoop s w _ _ _ _)
 
 end IronCalc.User
+
+/-! ### `delete_sheet` (repaired: the names local to the sheet go with it) preserves `WFBook` -/
+namespace IronCalc.User
+
+theorem distinct_map_eraseIdx {α β : Type} [DecidableEq β] (f : α → β) :
+    ∀ (l : List α) (i : Nat), distinct (l.map f) = true → distinct ((l.eraseIdx i).map f) = true := by
+  intro l
+  induction l with
+  | nil => intro i h; simpa using h
+  | cons x xs ih =>
+    intro i h
+    simp only [List.map_cons, distinct, Bool.and_eq_true, Bool.not_eq_true'] at h
+    cases i with
+    | zero => simpa using h.2
+    | succ i =>
+      simp only [List.eraseIdx_cons_succ, List.map_cons, distinct, Bool.and_eq_true, Bool.not_eq_true']
+      refine ⟨?_, ih i h.2⟩
+      cases hc : ((xs.eraseIdx i).map f).contains (f x) with
+      | false => rfl
+      | true =>
+        have hm : f x ∈ (xs.eraseIdx i).map f := by simpa using hc
+        obtain ⟨y, hy, hxy⟩ := List.mem_map.mp hm
+        have : f x ∈ xs.map f := List.mem_map.mpr ⟨y, List.mem_of_mem_eraseIdx hy, hxy⟩
+        have : (xs.map f).contains (f x) = true := by simpa using this
+        rw [this] at h; cases h.1
+
+/-- an id other than the erased sheet's is still the id of a sheet -/
+theorem mem_ids_eraseIdx (l : List Sheet) (i : Nat) (sh : Sheet) (h : l[i]? = some sh) (j : Nat)
+    (hj : j ∈ l.map (fun s => s.id)) (hne : j ≠ sh.id) : j ∈ (l.eraseIdx i).map (fun s => s.id) := by
+  obtain ⟨t, ht, rfl⟩ := List.mem_map.mp hj
+  obtain ⟨k, hk⟩ := List.mem_iff_getElem?.mp ht
+  have hki : k ≠ i := by
+    intro e; subst e; rw [h] at hk; cases hk; exact hne rfl
+  apply List.mem_map.mpr
+  refine ⟨t, ?_, rfl⟩
+  apply List.mem_iff_getElem?.mpr
+  by_cases hlt : k < i
+  · exact ⟨k, by rw [List.getElem?_eraseIdx]; simp [hlt, hk]⟩
+  · have hgt : i < k := by omega
+    refine ⟨k - 1, ?_⟩
+    rw [List.getElem?_eraseIdx]
+    have h1 : ¬ (k - 1 < i) := by omega
+    have h2 : k - 1 + 1 = k := by omega
+    simp [h1, h2, hk]
+
+theorem wf_mDeleteSheet (env : Env) (b b' : Book) (i : Nat) (hb : WFBook env b = true)
+    (h : mDeleteSheet b i = .ok b') : WFBook env b' = true := by
+  unfold mDeleteSheet at h
+  by_cases h1 : b.sheets.length = 1
+  · simp [h1] at h
+  · by_cases h2 : i ≥ b.sheets.length
+    · simp [h1, h2] at h
+    · simp only [h1, h2, if_false, Except.ok.injEq] at h
+      subst h
+      have hi : i < b.sheets.length := by omega
+      obtain ⟨sh, hsh⟩ : ∃ sh, b.sheets[i]? = some sh := ⟨b.sheets[i], by simp [hi]⟩
+      simp only [WFBook, Bool.and_eq_true, Bool.not_eq_true'] at hb ⊢
+      obtain ⟨⟨⟨⟨hne, hv⟩, hu⟩, hid⟩, hsc⟩ := hb
+      refine ⟨⟨⟨⟨?_, ?_⟩, ?_⟩, ?_⟩, ?_⟩
+      · have : (b.sheets.eraseIdx i).length = b.sheets.length - 1 := by
+          rw [List.length_eraseIdx]; simp [hi]
+        cases hl : b.sheets.eraseIdx i with
+        | nil => rw [hl] at this; simp at this; omega
+        | cons _ _ => rfl
+      · simp only [namesValid, List.all_eq_true] at hv ⊢
+        intro s hs; exact hv s (List.mem_of_mem_eraseIdx hs)
+      · simp only [namesUnique] at hu ⊢
+        exact distinct_map_eraseIdx _ _ _ hu
+      · simp only [idsUnique] at hid ⊢
+        exact distinct_map_eraseIdx _ _ _ hid
+      · simp only [namesScoped, List.all_eq_true, namesNotOf, List.mem_filter, hsh, Option.map_some] at hsc ⊢
+        intro d hd
+        have hdsc := hsc d hd.1
+        cases hs : d.sheetId with
+        | none => rfl
+        | some j =>
+          rw [hs] at hdsc
+          simp only at hdsc ⊢
+          have hne' : j ≠ sh.id := by
+            intro e; have := hd.2; rw [hs, e] at this; simp at this
+          have hj : j ∈ b.sheets.map (fun s => s.id) := by simpa using hdsc
+          have := mem_ids_eraseIdx b.sheets i sh hsh j hj hne'
+          simpa using this
+
+/-- the operation itself, failing or not -/
+theorem wf_deleteSheet (env : Env) (b : Book) (i : Nat) (hb : WFBook env b = true) :
+    WFBook env (deleteSheet b i).w = true := by
+  unfold deleteSheet
+  cases hs : getSheet b i with
+  | error e => simpa [fail] using hb
+  | ok s =>
+    cases hd : mDeleteSheet b i with
+    | error e => simpa [fail] using hb
+    | ok b' => simpa [done] using wf_mDeleteSheet env b b' i hb hd
+
+end IronCalc.User
